@@ -201,10 +201,19 @@ Definition clamp01 (a : Q) : Q := if Qle_bool a 0 then 0 else if Qle_bool 1 a th
 (** model against implementation for one call.  [tol == 0]: the inputs were generated so that
     binary64 is exact and the results must be equal.  Otherwise the implementation may resolve
     a cumulative weight within [tol] of [alpha] either way: its answer must lie between the
-    model's answers for [alpha - tol] and [alpha + tol].                                      *)
-Definition agree_q (tol : Q) (xs : list Q) (ws : option (list Q)) (alpha : Q) (i : option Q) : bool :=
-  if Qeq_bool tol 0 then opt_eq (wsq xs alpha ws) i
-  else match wsq xs (clamp01 (alpha - tol)) ws, wsq xs (clamp01 (alpha + tol)) ws, i with
+    model's answers for [alpha - tol] and [alpha + tol] (float mode is used for well-formed
+    inputs only).                                                                             *)
+Definition max_value (xs : list Q) : option Q :=
+  match rev (argsort xs) with i :: _ => Some (nth i xs 0) | [] => None end.
+
+Definition agree_q (tol : Q) (ix : option (list nat)) (xs : list Q) (ws : option (list Q)) (alpha : Q)
+           (i : option Q) : bool :=
+  if Qeq_bool tol 0
+  then opt_eq (match ix with Some index => wsq_idx index xs alpha ws | None => wsq xs alpha ws end) i
+  else match wsq xs (clamp01 (alpha - tol)) ws,
+             (* within [tol] of 1 every rounded cumulative weight may fall short of alpha, and the
+                forced last entry then selects the largest value (possibly a zero-weight row) *)
+             (if Qle_bool 1 (alpha + tol) then max_value xs else wsq xs (alpha + tol) ws), i with
        | Some lo, Some hi, Some q => Qle_bool lo q && Qle_bool q hi
        | _, _, _ => false
        end.
@@ -212,10 +221,13 @@ Definition agree_q (tol : Q) (xs : list Q) (ws : option (list Q)) (alpha : Q) (i
 Definition agree_quant xs ws tol scale index runs : bool :=
   (negb (wf_weights xs ws) || is_sorting_perm index xs)
   && forallb (fun r =>
-        agree_q tol xs ws (r_alpha r) (r_impl r)
+        (* with a negative weight (malformed stream) the answer depends on the order of tied values:
+           only then is the model run with numpy's own argsort instead of its own *)
+        let ix := if wf_weights xs ws then None else Some index in
+        agree_q tol ix xs ws (r_alpha r) (r_impl r)
         && (if Qeq_bool tol 0 then opt_eq (wsq_idx index xs (r_alpha r) ws) (r_impl r) else true)
         && match ws with
-           | Some w => agree_q tol xs (Some (map (fun v => Qred (scale * v)) w)) (r_alpha r) (r_impl_scaled r)
+           | Some w => agree_q tol ix xs (Some (map (fun v => Qred (scale * v)) w)) (r_alpha r) (r_impl_scaled r)
            | None => true
            end) runs.
 
